@@ -11,7 +11,16 @@ from pyval import enc, norm, exc_code
 import yamlfs
 from yamlfs import DIR
 
-from vinegar.data_source.yaml_target import YamlTargetSource
+import vinegar.data_source
+from vinegar.data_source.yaml_target import YamlTargetSource as _YamlTargetSource
+
+
+def YamlTargetSource(cfg):
+    """sources are created the way the server wires them: get_data_source -> yaml_target.get_instance"""
+    src = vinegar.data_source.get_data_source("yaml_target", cfg)
+    assert isinstance(src, _YamlTargetSource)
+    return src
+
 from vinegar.utils.cache import LRUCache
 
 LRU_KEYS = ["a", "b", "c"]
@@ -42,6 +51,8 @@ def apply_op(tree, op):
         t[op[1]] = op[2]
     elif kind == "delete":
         t.pop(op[1], None)
+    elif kind == "inplace":                    # same length, same inode, old mtime put back
+        t[op[1]] = op[2]
     elif kind == "swap":                       # name.yaml <-> name/init.yaml
         f, i = op[1] + ".yaml", op[1] + "/init.yaml"
         if f in t and i not in t:
@@ -238,6 +249,9 @@ def run_real(c):
                 tree = apply_op(tree, ("edit", op[2], op[3]))
             elif op[0] == "pre":
                 pd, pv = yamlfs.PRECEDING[op[1]]
+            elif op[0] == "inplace":
+                yamlfs.write_inplace_keep_mtime(root, op[1], op[2])
+                tree = apply_op(tree, op)
             elif op[0] == "switch":
                 # a new release directory with the tree after the inner operation; then the link is re-pointed
                 new = apply_op(tree, op[1])
@@ -497,6 +511,25 @@ class C12(Check):
             ops = [("get", "s1"), ("edit", "a.yaml", "k: 4\n"), ("get", "s1"), ("swap", "a"), ("get", "s1")]
             yield {"base": BASE_T, "ops": ops, "cache_size": 2, "engine": True, "ml": False, "ms": True, "allow_empty": False,
                    "rootname": name, "loglevel": "DEBUG"}
+        # an in-place rewrite of the same length with the old mtime put back (only ctime tells): top file and data files,
+        # template engine on and off
+        def same_len(text, old, new):
+            assert len(old) == len(new) and old in text
+            return text.replace(old, new, 1)
+        for engine, b in ((True, BASE_T), (False, BASE)):
+            edits = [("a.yaml", same_len(b["a.yaml"], "m: 1", "m: 7")), ("d/x.yaml", same_len(b["d/x.yaml"], "m: 2", "m: 8")),
+                     ("top.yaml", same_len(b["top.yaml"], "[a, d]", "[d, a]")), ("d/init.yaml", same_len(b["d/init.yaml"], "k: 3", "k: 9"))]
+            for rel, new in edits:
+                ops = [("get", "s1"), ("get", "s2"), ("inplace", rel, new), ("get", "s1"), ("get", "s2"), ("inplace", rel, b[rel]), ("get", "s1"),
+                       ("inplace", rel, new), ("get", "s2")]
+                for cs in (0, 64):
+                    yield {"base": b, "ops": ops, "cache_size": cs, "engine": engine, "ml": False, "ms": True, "allow_empty": False}
+        # text a template engine would treat as markup, with templating switched off (template: None through the factory)
+        mk = {"top.yaml": "'*': [a]\n# {% if id == 's1' %}\n's1': [b]\n# {% endif %}\n", "a.yaml": "k: '{{ later }}'\ninclude: [b]\n",
+              "b.yaml": "m: \"{# note #}x\"\n"}
+        yield {"base": mk, "ops": [("get", "s1"), ("edit", "b.yaml", "m: '{{ 1 + 1 }}'\n"), ("get", "s1"), ("get", "s2"),
+                                   ("edit", "a.yaml", "k: '{% raw %}'\n"), ("get", "s1")],
+               "cache_size": 64, "engine": False, "ml": False, "ms": True, "allow_empty": False}
         # values that yaml.safe_load does not turn into dict / list / set / scalar: !!omap and !!pairs (lists of TUPLES whose
         # members can be mutable), !!binary (bytes), !!timestamp (date objects); every returned tree is scribbled over
         exotic = ["bo: !!omap [ disk: {timeout: 5}, net: [1, 2] ]\nm: 1\n", "bo: !!pairs [ a: {x: 1}, a: [2] ]\n",
